@@ -417,6 +417,76 @@ def strip_tail_continue(fn, used):
     return fn
 
 
+def _map_bodies(fn, f):
+    """apply f(list_of_statements) -> list to every statement list of fn, innermost first"""
+    for n in ast.walk(fn):
+        for fld in ("body", "orelse", "finalbody"):
+            v = getattr(n, fld, None)
+            if isinstance(v, list) and v and isinstance(v[0], ast.stmt):
+                setattr(n, fld, f(v))
+        if isinstance(n, ast.Try):
+            for h in n.handlers:
+                h.body = f(h.body)
+    return fn
+
+
+def ifs_to_ifexp(fn, used):
+    """R17: `if c: x = a else: x = b` == `x = a if c else b`; same for `return` and for a call
+    `o.append(...)` in both arms (each arm a single statement, evaluation order unchanged)"""
+    def rw(body):
+        out = []
+        for st in body:
+            if isinstance(st, ast.If) and len(st.body) == 1 and len(st.orelse) == 1:
+                a, b = st.body[0], st.orelse[0]
+                if isinstance(a, ast.Assign) and isinstance(b, ast.Assign) and len(a.targets) == 1 and len(b.targets) == 1 and isinstance(a.targets[0], ast.Name) and ast.dump(a.targets[0]) == ast.dump(b.targets[0]):
+                    out.append(ast.Assign(targets=a.targets, value=ast.IfExp(test=st.test, body=a.value, orelse=b.value), lineno=st.lineno))
+                    used.add("R17:if-statement==conditional-expression")
+                    continue
+                if isinstance(a, ast.Return) and isinstance(b, ast.Return) and a.value is not None and b.value is not None:
+                    out.append(ast.Return(value=ast.IfExp(test=st.test, body=a.value, orelse=b.value)))
+                    used.add("R17:if-statement==conditional-expression")
+                    continue
+                if (isinstance(a, ast.Expr) and isinstance(b, ast.Expr) and isinstance(a.value, ast.Call) and isinstance(b.value, ast.Call) and isinstance(a.value.func, ast.Attribute)
+                        and a.value.func.attr == "append" and ast.dump(a.value.func) == ast.dump(b.value.func) and len(a.value.args) == 1 and len(b.value.args) == 1 and isinstance(a.value.func.value, ast.Name)):
+                    out.append(ast.Expr(value=ast.Call(func=a.value.func, args=[ast.IfExp(test=st.test, body=a.value.args[0], orelse=b.value.args[0])], keywords=[])))
+                    used.add("R17:if-statement==conditional-expression")
+                    continue
+            out.append(st)
+        return out
+    return _map_bodies(fn, rw)
+
+
+def loops_to_comprehensions(fn, used):
+    """R16: `xs = []` immediately followed by `for t in it: xs.append(e)` (optionally under one
+    `if c:`) is `xs = [e for t in it (if c)]` -- same items, same evaluation order"""
+    def rw(body):
+        out = []
+        i = 0
+        while i < len(body):
+            st = body[i]
+            nxt = body[i + 1] if i + 1 < len(body) else None
+            if (isinstance(st, ast.Assign) and len(st.targets) == 1 and isinstance(st.targets[0], ast.Name) and isinstance(st.value, ast.List) and not st.value.elts
+                    and isinstance(nxt, ast.For) and not nxt.orelse and len(nxt.body) == 1):
+                name = st.targets[0].id
+                inner = nxt.body[0]
+                conds = []
+                if isinstance(inner, ast.If) and not inner.orelse and len(inner.body) == 1:
+                    conds = [inner.test]
+                    inner = inner.body[0]
+                if (isinstance(inner, ast.Expr) and isinstance(inner.value, ast.Call) and isinstance(inner.value.func, ast.Attribute) and inner.value.func.attr == "append"
+                        and isinstance(inner.value.func.value, ast.Name) and inner.value.func.value.id == name and len(inner.value.args) == 1
+                        and not any(isinstance(x, ast.Name) and x.id == name for x in ast.walk(inner.value.args[0])) and not any(isinstance(x, ast.Name) and x.id == name for c_ in conds for x in ast.walk(c_))):
+                    comp = ast.ListComp(elt=inner.value.args[0], generators=[ast.comprehension(target=nxt.target, iter=nxt.iter, ifs=conds, is_async=0)])
+                    out.append(ast.Assign(targets=st.targets, value=comp, lineno=st.lineno))
+                    used.add("R16:append-loop==list-comprehension")
+                    i += 2
+                    continue
+            out.append(st)
+            i += 1
+        return out
+    return _map_bodies(fn, rw)
+
+
 def canonical_branches(fn, used):
     """R15: `if not c: A else: B` == `if c: B else: A`; `if x is None: A else: B` ==
     `if x is not None: B else: A` (both arms present, no elif chain on the swapped arm)"""
@@ -514,9 +584,17 @@ def compare(sync_fn, async_fn, facts_sync=None, facts_async=None, sigs=None):
     # last resort: the same comparison after canonical renaming of locals and removal of
     # redundant tail `continue`s (both behaviour-preserving)
     used2: set = set()
-    a2 = alpha_rename(canonical_branches(strip_tail_continue(copy.deepcopy(a), used2), used2), used2)
-    b2 = alpha_rename(canonical_branches(strip_tail_continue(copy.deepcopy(b), used2), used2), used2)
-    a2, b2 = ast.fix_missing_locations(a2), ast.fix_missing_locations(b2)
+    def last_resort(fn):
+        fn = copy.deepcopy(fn)
+        fn = loops_to_comprehensions(ifs_to_ifexp(fn, used2), used2)
+        r2 = Rules(is_generator_pair=False, signatures=sigs or {})
+        for sub in ast.walk(fn):
+            if isinstance(sub, ast.FunctionDef):
+                sub.body = r2.inline_temps(sub.body)
+        used2.update(r2.used)
+        fn = alpha_rename(canonical_branches(strip_tail_continue(fn, used2), used2), used2)
+        return ast.fix_missing_locations(fn)
+    a2, b2 = last_resort(a), last_resort(b)
     if ast.unparse(a2) == ast.unparse(b2):
         return True, "tier2:congruence modulo rewrite rules", sorted(used | used2), []
     diff = [l for l in difflib.unified_diff(sa.splitlines(), sb.splitlines(), "sync", "async(erased)", lineterm="", n=1)]
